@@ -924,6 +924,43 @@ func runRewindOn(sc *streamScenario, sid string, bs *builtStream, rec *recorder)
 			rec.ev(e)
 		})
 	}
+	// a reader that cannot seek (explicit packet size: detection on such a reader loses packets by design): Rewind leaves it where it is
+	// and the demuxer goes on with the rest of the input as a fresh one would - no residue of what was seen before
+	if sc.Run.PSize >= 0 {
+		run := len(plans)
+		for _, pl := range []plan{{rg.intn(maxK + 1), "data", -1}, {rg.intn(npk + 1), "packet", -1}, {rg.intn(maxK + 1), "mixed", -1}} {
+			run++
+			cr := &countReader{r: bytes.NewReader(bs.bytes)}
+			dmx := newDemuxer(plainReader{cr}, sc.Run)
+			for i := 0; i < pl.k; i++ {
+				usePacket := pl.api == "packet" || (pl.api == "mixed" && i%2 == 0)
+				safeCall(func() {
+					if usePacket {
+						dmx.NextPacket()
+					} else {
+						dmx.NextData()
+					}
+				})
+			}
+			pos := cr.pulled
+			var n int64
+			var err error
+			pn := safeCall(func() { n, err = dmx.Rewind() })
+			// the reference: a fresh demuxer over what the reader has left
+			rec.ev(M{"ev": "variant", "r": -2, "k": pl.k, "api": "suffix", "again": -1, "pos": pos})
+			ref := newDemuxer(bytes.NewReader(bs.bytes[pos:]), sc.Run)
+			drainData(ref, bound, func() int { return 0 }, func(e M) {
+				e["run"] = -2
+				rec.ev(e)
+			})
+			rec.ev(M{"ev": "variant", "r": run, "k": pl.k, "api": "noseek-" + pl.api, "again": -1, "pos": pos})
+			rec.ev(M{"ev": "rewind", "run": run, "n": int(n), "err": errClass(err), "panic": pn != nil})
+			drainData(dmx, bound, func() int { return 0 }, func(e M) {
+				e["run"] = run
+				rec.ev(e)
+			})
+		}
+	}
 }
 
 // ---------- C08: read fragmentation, reader kinds, framing ----------
